@@ -56,7 +56,49 @@ def outJson (o : Obs Json) : Json :=
         Json.arr #[p, t.getD Json.null, m.getD Json.null])).toArray),
     ("consumed", toJson o.consumed)])
 
+def getCfgEv (j : Json) : Except String (Cfg Json × List (Nat × In Json)) := do
+  let P ← j.getObjValAs? Nat "P"
+  if h : 0 < P then
+    let evs ← j.getObjValAs? (Array Json) "ev"
+    let ev ← evs.toList.mapM (fun e => do
+      let a ← (← e.getArrVal? 0).getNat?
+      let m ← getIn (← e.getArrVal? 1)
+      pure (a, m))
+    let cancelAt := match optField j "cancelAt" with
+      | some c => c.getNat?.toOption
+      | none => none
+    let token ← match optField j "token" with
+      | some t => (some <$> getId t)
+      | none => pure none
+    let cfg : Cfg Json := {
+      reqId := ← getId (← j.getObjVal? "id"), D := ← j.getObjValAs? Nat "D", P := P, hP := h,
+      preCancelled := (j.getObjValAs? Bool "pre").toOption.getD false,
+      cancelAt := cancelAt, token := token, zero := Json.num 0,
+      eventsFirst := (j.getObjValAs? Bool "eventsFirst").toOption.getD true,
+      cbRaises := fun _ => false }
+    return (cfg, ev)
+  else throw "P must be positive"
+
+/-- `{"m":"await","seq":[request…],"gaps":[…],"fire":tick|null,"start":tick}`: consecutive
+requests sharing one token -/
+def handleSeq (j : Json) : Except String Json := do
+  let reqs ← j.getObjValAs? (Array Json) "seq"
+  let gaps ← j.getObjValAs? (Array Nat) "gaps"
+  let fire := match optField j "fire" with
+    | some c => c.getNat?.toOption
+    | none => none
+  let start := (j.getObjValAs? Nat "start").toOption.getD 0
+  let items ← reqs.toList.zipIdx.mapM (fun (r, i) => do
+    let (cfg, ev) ← getCfgEv r
+    pure (cfg, gaps.getD i 0, ev))
+  -- "par": the requests run concurrently, each from `start` on its own stream pair
+  let par := (j.getObjValAs? Bool "par").toOption.getD false
+  let outs := if par then items.flatMap (fun it => runSeq Verif.Gen.Errors.isRetryableError fire start [it])
+    else runSeq Verif.Gen.Errors.isRetryableError fire start items
+  return Json.arr (outs.map (fun (s, o) => (outJson o).setObjVal! "start" (toJson s))).toArray
+
 def handle (j : Json) : Except String Json := do
+  if (j.getObjVal? "seq").isOk then return ← handleSeq j
   let P ← j.getObjValAs? Nat "P"
   if h : 0 < P then
     let evs ← j.getObjValAs? (Array Json) "ev"
